@@ -504,7 +504,7 @@ EXPLANATION = ("Modular proof by structural induction: flatten_symbols, flatten_
                "with callees and recursive calls under contract; instance names are symbolic strings. A bounded replay generates whole hierarchies and compares the real flatten result with an independent reference flattening.")
 MANIFEST = {
     "category": "proof",
-    "text": "Structural induction over the component hierarchy on the real source: (1) flatten_symbols for one level with its recursive call under the contract it establishes, for an arbitrary symbolic instance name and at top level, over eight prefix lists: flat names are prefix+declared name, the component is flattened exactly once under its dotted name and everything it returns is taken over with the component's array dimensions in front, declared types kept (alias types resolved to their base), parameter/constant/discrete/flow kept, input/output dropped iff nested, own and inherited equations each once and renamed with the instance prefix against the flat class; (2) the reference renamer: a.b.c (depth 1-3, symbolic prefix) becomes the flat name exactly when that variable exists, with concatenated indices, and is left alone otherwise or inside pending modifications; (3) flatten_extends with bases under contract: each base once with its clause's modification; inherited and own symbols/equations each exactly once, own declarations win; (4) build_instance_tree's symbol loop: each component is instantiated from its own copy of the class. A bounded replay generates hierarchies (depth <= 4, repeated instances, extends chains, multiple and enclosing-scope extends, nested classes, type aliases, arrays) and compares flatten's variables and equations with an independent reference flattening.",
+    "text": "Structural induction over the component hierarchy on the real source: (1) flatten_symbols for one level with its recursive call under the contract it establishes, for an arbitrary symbolic instance name and at top level, over eight prefix lists: flat names are prefix+declared name, the component is flattened exactly once under its dotted name and everything it returns is taken over with the component's array dimensions in front, declared types kept (alias types resolved to their base), parameter/constant/discrete/flow kept, input/output dropped iff nested, own and inherited equations each once and renamed with the instance prefix against the flat class; (2) the reference renamer: a.b.c (depth 1-3, symbolic prefix) becomes the flat name exactly when that variable exists, with concatenated indices, and is left alone otherwise or inside pending modifications; (3) flatten_extends with bases under contract: each base once with its clause's modification; inherited and own symbols/equations each exactly once, own declarations win; (4) build_instance_tree's symbol loop: each component is instantiated from its own copy of the class. A bounded replay generates hierarchies (depth <= 4, repeated instances, extends chains, multiple and enclosing-scope extends, nested classes, type aliases, arrays) and compares flatten's variables and equations with an independent reference flattening. C05's ownership contract of tree.py (instances are built from copies) is discharged here too, because the in-place strip of input/output relies on it.",
     "note": "Induction hypotheses are assumed contracts of the recursive calls; class lookup rules and TreeWalker's traversal are trusted and only sampled by the replay; width (number of symbols per class) is enumerated, not quantified.",
     "technique": "contract-based deductive verification: symbolic execution of the real functions with callees and recursive calls under contract (structural induction), z3 strings for instance names; bounded replay against a reference flattening",
 }
